@@ -945,3 +945,19 @@ PLAN['C02']['rule'] += (' Partial forests (spec/Partial.tla, all call kinds incl
                         'out earlier must not change during later calls.')
 PLAN['C02']['bounds'] = {'quick': PLAN['C02']['bounds']['quick'] + '; partial forests n<=4, all call kinds',
                          'thorough': PLAN['C02']['bounds']['thorough'] + '; partial forests n<=5, undo depth 2'}
+
+
+# --------------------------------------------------------------------------- C14 on lifted forests
+def lift_ops(tier):
+    q = tier == 'quick'
+    out = []
+    for nm, act in (('lift_ops_add', 'addproof'), ('lift_ops_subset', 'subset'), ('lift_ops_missing', 'missing')):
+        st = ops(nm, [act], 4 if q else 6)
+        st['fam'] = 'lift'
+        out.append(st)
+    return out
+
+
+PLAN['C14']['stages'] = (lambda f: (lambda tier, seed: f(tier, seed) + lift_ops(tier)))(PLAN['C14']['stages'])
+PLAN['C14']['rule'] += (' Stages lift_ops_*: the same operations on lifted forests (spec/Lift.tla): the proofs live below high trees of '
+                        '2^31 .. 2^62 leaves, every position is a shifted one, the leaf count passed to the operations is the big one.')
